@@ -95,10 +95,27 @@ def r2_innermost_wins(ctx, rep):
         if isinstance(n, ast.Call) and isinstance(n.func, ast.Attribute) and n.func.attr == "update" and \
                 isinstance(n.func.value, ast.Attribute) and n.func.value.attr in TABLES and n.args:
             events[n.func.value.attr].append((n.lineno, classify(ast.unparse(n.args[0])), ast.unparse(n)[:70]))
-        # self.T = X
+        # self.T = X   (a dict display {**A, **B} is a sequence of writes in which the later entry wins;
+        #               `**self.T` re-asserts everything written so far)
         if isinstance(n, ast.Assign) and isinstance(n.targets[0], ast.Attribute) and n.targets[0].attr in TABLES and \
                 ast.unparse(n.targets[0].value) == "self":
-            events[n.targets[0].attr].append((n.lineno, classify(ast.unparse(n.value)), ast.unparse(n)[:70]))
+            tname = n.targets[0].attr
+            v = n.value
+            parts = None
+            if isinstance(v, ast.Dict) and v.keys and all(k is None for k in v.keys):
+                parts = list(v.values)
+            elif isinstance(v, ast.BinOp) and isinstance(v.op, ast.BitOr):
+                parts = [v.left, v.right]
+            if parts is not None:
+                for i, part in enumerate(parts):
+                    if ast.unparse(part) == f"self.{tname}":
+                        for ln, k, d in list(events[tname]):
+                            if ln < n.lineno:
+                                events[tname].append((n.lineno + 0.01 * (i + 1), k, f"re-asserted by `{ast.unparse(n)[:60]}`"))
+                    else:
+                        events[tname].append((n.lineno + 0.01 * (i + 1), classify(ast.unparse(part)), ast.unparse(n)[:70]))
+            else:
+                events[tname].append((n.lineno, classify(ast.unparse(v)), ast.unparse(n)[:70]))
         # for x in COLL: self.T[...] = x
         if isinstance(n, ast.For):
             for s in n.body:
@@ -122,13 +139,21 @@ def r2_innermost_wins(ctx, rep):
             raise AnalysisError(f"no LOCAL write to {t} found")
         last_local = max(local_at)
         order = " < ".join(f"{k}" for ln, k, _ in ev)
+        use_at = [ln for ln, k, _ in ev if k == "USE"]
+        if use_at:
+            later = [(ln, k, d) for ln, k, d in ev if ln > max(use_at) and k in ("HOST",)]
+            rep.ob(f"table {t}: use association overrides host association", not later,
+                   f"write order {order}" if not later else
+                   f"write order {order}: `{later[0][2]}` puts the host's names back over what a USE statement of this scope "
+                   f"imported: an inner-scope `use m, only: x` no longer hides the host's `x`",
+                   f"ford/sourceform.py:{int(later[0][0]) if later else int(ev[0][0])}")
         for kind, word in (("HOST", "host"), ("ANCESTOR", "ancestor-module")):
             later = [(ln, k, d) for ln, k, d in ev if ln > last_local and k == kind]
             rep.ob(f"table {t}: no {word} write after the local one", not later,
                    f"write order {order}" if not later else
                    f"write order {order}: `{later[0][2]}` runs after the scope's own declarations were entered, and the "
                    f"later dict write wins: a {word} entity shadows a local declaration of the same name",
-                   f"ford/sourceform.py:{later[0][0] if later else ev[0][0]}")
+                   f"ford/sourceform.py:{int(later[0][0]) if later else int(ev[0][0])}")
 
 
 def r3_lower_keys(ctx, rep):
